@@ -311,7 +311,8 @@ func c26Arith(op byte, a, b gen.MV, r callResult, known map[string]bool) (v c26V
 		return
 	}
 	e := decExact(op, x.r, y.r)
-	allInt := x.r.IsInt() && y.r.IsInt()
+	// integers that exist in the integer representations too
+	allInt := x.r.IsInt() && y.r.IsInt() && x.r.Num().IsInt64() && y.r.Num().IsInt64()
 	bothIntRepr := isIntRepr(a) && isIntRepr(b)
 	eFits := e.IsInt() && e.Num().IsInt64()
 	exactly := func() {
@@ -523,7 +524,7 @@ func TestC26(t *testing.T) {
 		return c26Cmp(op, a, b, r, known)
 	}
 
-	rt.Check(t, rec, "ops", 12000, 300000, func(t *rapid.T) {
+	rt.Check(t, rec, "ops", 24000, 1200000, func(t *rapid.T) {
 		a, b, cls := c26Pair(t)
 		a2, b2 := altRepr(t, a), altRepr(t, b)
 		rec.Label("pair_" + cls)
